@@ -143,21 +143,22 @@ def fast_forward(b: envs.Bundle, st_, ts, prefix: dict):
     import jax
     import jax.numpy as jnp
 
-    pol = envs.DEEP_POLICIES[b.name][prefix["policy"]]
+    pol = envs.deep_policy(b, prefix["policy"])
     n = int(prefix["steps"])
+    salt = int(prefix.get("salt", 0))
     if n <= 0:
         return st_, ts
     k = (id(b), prefix["policy"])
     if k not in _FF:
         env = b.env
 
-        def first(s):
-            return env.step(s, pol(env, s))
+        def first(s, t, salt_):
+            return env.step(s, pol(env, s, t, 0, salt_))
 
-        def rest(s, t, m):
-            def body(_, c):
+        def rest(s, t, m, salt_):
+            def body(i, c):
                 s1, t1 = c
-                s2, t2 = env.step(s1, pol(env, s1))
+                s2, t2 = env.step(s1, pol(env, s1, t1, i + 1, salt_))
                 keep = t2.last()
                 return jax.tree_util.tree_map(lambda x, y: jnp.where(keep, x, y), (s1, t1), (s2, t2))
 
@@ -165,10 +166,10 @@ def fast_forward(b: envs.Bundle, st_, ts, prefix: dict):
 
         _FF[k] = (b, jax.jit(first), jax.jit(rest))
     _, first, rest = _FF[k]
-    s1, t1 = first(st_)
+    s1, t1 = first(st_, ts, salt)
     if int(t1.step_type) == LAST:
         return st_, ts
-    return rest(s1, t1, n - 1)
+    return rest(s1, t1, n - 1, salt)
 
 
 def solved_action(b: envs.Bundle, solve_fn, hst, r):
